@@ -89,7 +89,7 @@ Proof.
       { destruct CL' as [PC | PC].
         - destruct (t_P5 c _ _ _ _ M PC G SAX) as (_ & E2 & E3 & _). split; assumption.
         - destruct (t_M5 c Npos Nsmall _ _ _ _ M PC G SAX) as [(PC2 & _ & WE) | (E3 & _ & _ & E2 & _)].
-          + exfalso. destruct WE as (E1 & _). rewrite E1 in E. rewrite E, <- EH, (next_count_plus c Npos Nsmall) in * by lia. lia.
+          + exfalso. destruct WE as (E1 & _). rewrite E1 in E. rewrite <- EH, (next_count_plus c Npos Nsmall) in E by lia. lia.
           + split; assumption. }
       destruct PC' as (PC' & ER').
       destruct (SELF (o_a o) eq_refl) as (b' & B' & E1 & E2 & E3); [rewrite PC'; reflexivity|].
